@@ -316,6 +316,7 @@ def check_primitives(sc, o):
         if part.compile_mode == 'single':
             continue     # REPL echo semantics (C20)
         exp_out = ''.join(g.out for g in gs)
+        sc.setdefault('_exp_logged', {})[str(idx)] = exp_out      # kept with a failing input, so that its replay can compare again
         got_out = o['logged_stdout'][idx] or ''
         if got_out != exp_out:
             why.append('part %d %r logged stdout %r, its statements wrote %r' % (idx, part.exec_lines, got_out, exp_out))
@@ -406,6 +407,8 @@ def run_scenarios(scenarios):
             if not why and (zlib.crc32(sc['text'].encode('utf8', 'replace')) % 3 == 0 or sc.get('rerun')):
                 why = rerun_check(sc, o)
             if why:
+                if sc.get('_exp_logged'):
+                    inp = dict(inp, exp_logged=sc['_exp_logged'])
                 out['exp'].append((inp, sc['expect'], {k: o.get(k) for k in ('pfs', 'kind', 'T', 'ending', 'exc_type', 'failidx')}, '; '.join(why)))
         if len(out['samples']) < 2:
             out['samples'].append({'text': sc['text'], 'observed': o.get('obs'), 'TRACE': o.get('T')})
